@@ -50,9 +50,24 @@ func toInt(d *internal.Decimal) *big.Int {
 //	Floor(NaN) = NaN
 func Floor(x *internal.Decimal) (*big.Int, error) {
 	var d internal.Decimal
-	_, err := internal.BaseContext.Floor(&d, x)
-	_, _ = internal.BaseContext.Quantize(&d, &d, 0)
+	c := integralContext(x)
+	_, err := c.Floor(&d, x)
+	_, _ = c.Quantize(&d, &d, 0)
 	return toInt(&d), err
+}
+
+// integralContext returns a context with enough precision to hold the
+// integer part of x with exponent 0: quantizing a number of more than
+// 34 digits in the base context fails and would yield 0.
+func integralContext(x *internal.Decimal) *apd.Context {
+	c := &internal.BaseContext.Context
+	if x.Form != apd.Finite {
+		return c
+	}
+	if n := x.NumDigits() + int64(x.Exponent) + 1; n > int64(c.Precision) {
+		c = c.WithPrecision(uint32(n))
+	}
+	return c
 }
 
 // Ceil returns the least integer value greater than or equal to x.
@@ -64,8 +79,9 @@ func Floor(x *internal.Decimal) (*big.Int, error) {
 //	Ceil(NaN) = NaN
 func Ceil(x *internal.Decimal) (*big.Int, error) {
 	var d internal.Decimal
-	_, err := internal.BaseContext.Ceil(&d, x)
-	_, _ = internal.BaseContext.Quantize(&d, &d, 0)
+	c := integralContext(x)
+	_, err := c.Ceil(&d, x)
+	_, _ = c.Quantize(&d, &d, 0)
 	return toInt(&d), err
 }
 
